@@ -19,7 +19,7 @@ from hl7apy.parser import parse_segment, parse_field, parse_component, parse_mes
 # numeric leaves in plain decimal form, dates/times in HL7 form
 CANON = {
     'DT': ['20200101', '2020', '202012'], 'DTM': ['20200101', '202001011230', '20200101123059', '2020'],
-    'TM': ['1200', '120000', '12'], 'NM': ['1', '15', '-3', '1.5'], 'SI': ['1', '12'],
+    'TM': ['1200', '120000', '12'], 'NM': ['1', '15', '-3', '1.5', '12.50', '150.00', '2.0', '0.5', '100'], 'SI': ['1', '12'],
     'ST': ['abc', 'a\\F\\b', 'A B', 'x\\H\\y\\N\\', 'X' * 210, 'it\\E\\s'], 'ID': ['A', 'Y'], 'IS': ['A', 'B' * 25],
     'TN': ['555-1234'], 'TX': ['text', 't\\E\\x'], 'FT': ['ft', 'f\\.br\\t'], 'WD': ['w'], 'GTS': ['g'],
     'SNM': ['s1'], 'CM': ['cm'],
